@@ -109,6 +109,12 @@ func (g *GRU) Apply(inputs []tensor.Tensor) ([]tensor.Tensor, error) {
 	// we do not support bidirectional GRU yet.
 	shapeWithoutBidir := prevH.Shape().Clone()[1:]
 
+	// Reshape a copy: the initial state may be a weight of the model or a tensor of the caller.
+	prevH, ok := prevH.Clone().(tensor.Tensor)
+	if !ok {
+		return nil, ops.ErrTypeAssert("tensor.Tensor", prevH)
+	}
+
 	err = prevH.Reshape(shapeWithoutBidir...)
 	if err != nil {
 		return nil, err
